@@ -102,3 +102,9 @@ PROPS["C03"] = {
         {"name": "c03-forged-metadata", "pkg": ROOT, "run": "TestVerifC03", "timeout": {"quick": 1200, "thorough": 3400}},
     ],
 }
+PROPS["C06"] = {
+    "level": "exploration",
+    "units": [
+        {"name": "c06-handshake", "pkg": "internal/handshake", "run": "TestVerifC06", "timeout": {"quick": 900, "thorough": 3000}},
+    ],
+}
